@@ -87,6 +87,25 @@ fn main() {
             let op = args.get(2).cloned().unwrap_or_else(|| usage());
             println!("{}", vharness::checks::c18::alloc_child(&op));
         }
+        "miri-suite" => {
+            // interpreter-monitored enumeration (see miri_suite.rs); also runs natively
+            if args.iter().any(|a| a == "--noop") {
+                return;
+            }
+            let depth: usize = get("--depth").and_then(|s| s.parse().ok()).unwrap_or(1);
+            let (k, n) = get("--shard")
+                .and_then(|s| s.split_once('/').map(|(a, b)| (a.parse().unwrap_or(0), b.parse().unwrap_or(1))))
+                .unwrap_or((0, 1));
+            let only: Option<usize> = get("--item").and_then(|s| s.parse().ok());
+            let list = args.iter().any(|a| a == "--list");
+            let res = vharness::miri_suite::run(depth, k, n, only, list);
+            let bad = !res["violations"].as_array().map(|a| a.is_empty()).unwrap_or(true);
+            match get("--out") {
+                Some(out) => std::fs::write(&out, serde_json::to_string_pretty(&res).unwrap()).expect("write --out"),
+                None => println!("{}", res),
+            }
+            std::process::exit(if bad { 1 } else { 0 });
+        }
         "transcript-dump" => {
             let section = args.get(2).cloned().unwrap_or_else(|| usage());
             let block: u64 = args.get(3).and_then(|s| s.parse().ok()).unwrap_or_else(|| usage());
